@@ -107,6 +107,8 @@ def run_function(world: World, c: Contract) -> tuple[Exec, FnResult]:
         cx.env = env
         for nm, f in c.requires:
             ex.assume(f(cx))
+        for nm, f in c.definitions:
+            ex.assume(f(cx))
         if c.kind == "setup":
             pass
         old_heap = ex.snapshot_heap()
